@@ -146,7 +146,7 @@ def strip_comments(v):
 
 # ---- generators -------------------------------------------------------------------------------
 
-LEAVES = [0, -1, 10 ** 20, True, None, Ellipsis, 1.5, -0.0, float('inf'), float('nan'), '', 'a', "'", '"\'', '\\', '\n', '\xe9',
+LEAVES = [0, -1, 10 ** 20, True, None, Ellipsis, 1.5, -0.0, 0.0, float('inf'), float('nan'), '', 'a', "'", '"\'', '\\', '\n', '\xe9',
           '\x00', b'', b"'\xff", 'ab cd']
 
 
@@ -166,7 +166,7 @@ def rand_value(rng, depth=0, budget=20, hash_only=False):
         if r < 0.7:
             return rng.randint(-10 ** rng.randint(0, 25), 10 ** rng.randint(0, 25))
         if r < 0.8:
-            return rng.choice([0.1, 1e100, -2.5e-7, 3.0, float('-inf'), 1e16, 123456.789])
+            return rng.choice([0.1, 1e100, -2.5e-7, 3.0, float('-inf'), 1e16, 123456.789, 0.0, -0.0, 1.0, -1.0])
         k = rng.choice([3, 8, 15, 30, 70])
         alpha = "ab cd,ef.gh'\"\\\n\té中 "
         if rng.random() < 0.7:
